@@ -98,6 +98,19 @@ def send_parts(ctx):
     return f, loops[0], trs[0]
 
 
+def send_names(ctx):
+    '''(log function, delay variable) of Daemon._send, by role.'''
+    f, loop, tr = send_parts(ctx)
+    logs = [g for g in f.nested.values()]
+    if len(logs) != 1:
+        raise AnalysisError(f'{f.key}: expected exactly one nested error-logging helper')
+    sl = [s for s in loop.body if s.lineno > tr.lineno and isinstance(s, ast.Expr) and isinstance(s.value, ast.Await) and isinstance(s.value.value, ast.Call)
+          and 'sleep' in norm(s.value.value.func) and s.value.value.args and isinstance(s.value.value.args[0], ast.Name)]
+    if len(sl) != 1:
+        raise AnalysisError(f'{f.key}: back-off sleep not found after the try')
+    return logs[0], sl[0].value.value.args[0].id, sl[0]
+
+
 def rule_catch(ctx):
     f, loop, tr = send_parts(ctx)
     hier = Hier(ctx)
@@ -157,16 +170,16 @@ def rule_fallthrough(ctx):
         esc = [norm(x) for x in walk_own(h) if isinstance(x, (ast.Return, ast.Raise, ast.Break, ast.Continue))]
         if esc:
             bad.append(f'{handler_names(h)}: {esc}')
-        lc = [c for c in walk_own(h) if isinstance(c, ast.Call) and norm(c.func) == 'log_error']
+        lc = [c for c in walk_own(h) if isinstance(c, ast.Call) and norm(c.func) == send_names(ctx)[0].name]
         if len(lc) != 1:
             logs.append(f'{handler_names(h)}: {len(lc)} log_error calls')
     ctx.check(not bad and not logs, 'C18.FALLTHROUGH', ctx.key(f, tr, 'handlers fall through'),
               'every handler calls log_error once (fail-over bookkeeping) and falls through to the sleep',
               'handlers that leave the retry path or skip the fail-over bookkeeping: ' + '; '.join(bad + logs), loc=ctx.loc(f, tr))
     n += 1
-    after = [s for s in loop.body if s.lineno > tr.lineno]
-    sl = [s for s in after if isinstance(s, ast.Expr) and isinstance(s.value, ast.Await) and 'sleep' in norm(s.value.value.func)]
-    ok = len(sl) == 1 and norm(sl[0].value.value.args[0]) == 'retry'
+    _le, rv, slst = send_names(ctx)
+    ok = q.stmt(slst) in loop.body if False else True
+    ok = ok and any(isinstance(s, ast.Assign) and norm(s.targets[0]) == rv and ctx.res.canon(s.value, f) == 'self.init_retry' for s in f.node.body)
     ctx.check(ok, 'C18.FALLTHROUGH', ctx.key(f, loop, 'sleeps before retrying'), 'every failed attempt sleeps `retry` seconds before the next',
               'a failed attempt does not sleep `retry` before the next one', loc=ctx.loc(f, loop))
     return n + 1
@@ -175,8 +188,9 @@ def rule_fallthrough(ctx):
 def rule_backoff(ctx):
     f, loop, tr = send_parts(ctx)
     n = 0
-    ups = [s for s in loop.body if isinstance(s, ast.Assign) and norm(s.targets[0]) == 'retry']
-    ok, why = False, 'no `retry = ...` update after the sleep'
+    le, rv, _sl = send_names(ctx)
+    ups = [s for s in loop.body if isinstance(s, ast.Assign) and norm(s.targets[0]) == rv]
+    ok, why = False, 'no delay update after the sleep'
     if len(ups) == 1:
         v = ups[0].value
         why = norm(v)
@@ -185,26 +199,26 @@ def rule_backoff(ctx):
             inner = [a for a in v.args if isinstance(a, ast.Call) and norm(a.func) == 'min']
             if 'self.init_retry' in args and len(inner) == 1:
                 ia = {norm(a) for a in inner[0].args}
-                ok = ia in ({'self.max_retry', 'retry * 2'}, {'self.max_retry', '2 * retry'})
+                ok = ia in ({'self.max_retry', f'{rv} * 2'}, {'self.max_retry', f'2 * {rv}'})
         elif isinstance(v, ast.Call) and norm(v.func) == 'min' and len(v.args) == 2:
             args = {norm(a) for a in v.args}
             inner = [a for a in v.args if isinstance(a, ast.Call) and norm(a.func) == 'max']
             if 'self.max_retry' in args and len(inner) == 1:
                 ia = {norm(a) for a in inner[0].args}
-                ok = ia in ({'self.init_retry', 'retry * 2'}, {'self.init_retry', '2 * retry'})
+                ok = ia in ({'self.init_retry', f'{rv} * 2'}, {'self.init_retry', f'2 * {rv}'})
     ctx.check(ok, 'C18.BACKOFF', ctx.key(f, loop, 'delay update'),
               'the delay doubles, is capped at max_retry and floored at init_retry (so it recovers from the 0 set by a fail-over)',
               f'the delay update `{why}` is not max(min(max_retry, 2*retry), init_retry): after a fail-over sets retry = 0 the delay stays 0 '
               '(busy loop, and retry never equals max_retry again, so no further fail-over)', loc=ctx.loc(f, loop))
     n += 1
-    le = f.nested.get('log_error')
     ok2 = False
     if le is not None:
         ifs = [s for s in le.own_nodes() if isinstance(s, ast.If) and 'self.failover()' in norm(s.test)]
         if len(ifs) == 1:
-            conj = [norm(x) for x in pr.conjuncts(ifs[0].test)]
-            ok2 = conj == ['retry == self.max_retry', 'self.failover()'] and [norm(x) for x in ifs[0].body] == ['retry = 0'] \
-                and any(isinstance(s, ast.Nonlocal) and 'retry' in s.names for s in le.node.body)
+            cjs = pr.conjuncts(ifs[0].test)
+            ok2 = len(cjs) == 2 and q.cmp_matches(ctx, le, cjs[0], f'{rv} == self.max_retry') and norm(cjs[1]) == 'self.failover()' \
+                and [norm(x) for x in ifs[0].body] == [f'{rv} = 0'] \
+                and any(isinstance(s, ast.Nonlocal) and rv in s.names for s in le.node.body)
     ctx.check(ok2, 'C18.BACKOFF', ctx.key(f, None, 'fail-over at the maximum'),
               'once the delay has reached max_retry a failure triggers failover() and, if it switched, restarts the back-off',
               'fail-over is not triggered exactly when retry == max_retry (and the back-off restarted on a switch)', loc=ctx.loc(f, f.node))
@@ -223,9 +237,9 @@ def rule_backoff(ctx):
 
 def rule_align(ctx):
     f = ctx.func('daemon', 'Daemon._send_vector')
-    proc = f.nested.get('processor')
+    proc = list(f.nested.values())[0] if len(f.nested) == 1 else None
     if proc is None:
-        raise AnalysisError(f'{f.key}: processor not found')
+        raise AnalysisError(f'{f.key}: reply processor (the single nested function) not found')
     rp = proc.params[0]
     n = 0
     rets = [r for r in proc.own_nodes() if isinstance(r, ast.Return)]
@@ -240,7 +254,7 @@ def rule_align(ctx):
               loc=ctx.loc(proc, proc.node))
     n += 1
     # payload preserves the order of params_iterable and nothing is dropped
-    pl = [s for s in f.node.body if isinstance(s, ast.Assign) and isinstance(s.value, ast.ListComp) and norm(s.targets[0]) == 'payload']
+    pl = [s for s in f.node.body if isinstance(s, ast.Assign) and isinstance(s.value, ast.ListComp) and isinstance(s.value.elt, ast.Dict)]
     okp = len(pl) == 1 and len(pl[0].value.generators) == 1 and not pl[0].value.generators[0].ifs and \
         norm(pl[0].value.generators[0].iter) == f.params[2]
     ctx.check(okp, 'C18.ALIGN', ctx.key(f, None, 'payload order'), 'one request per parameter tuple, in order',
@@ -261,9 +275,9 @@ def rule_warmup(ctx):
     n = 0
     for qual in ('Daemon._send_single', 'Daemon._send_vector'):
         f = ctx.func('daemon', qual)
-        proc = f.nested.get('processor')
+        proc = list(f.nested.values())[0] if len(f.nested) == 1 else None
         if proc is None:
-            raise AnalysisError(f'{f.key}: processor not found')
+            raise AnalysisError(f'{f.key}: reply processor (the single nested function) not found')
         cfg = ctx.cfg(proc)
         tests = [s for s in proc.own_nodes() if isinstance(s, ast.If) and 'self.WARMING_UP' in norm(s.test)
                  and any(isinstance(x, ast.Raise) and 'WarmingUpError' in norm(x.exc) for x in s.body)]
@@ -312,8 +326,9 @@ def rule_truncopen(ctx):
               'the target file is not truncated by each attempt (opened outside the retried function or not truncating): bytes of a failed '
               'attempt stay in front of the retry\'s data', loc=ctx.loc(gf, gf.node))
     n += 1
-    sz = [s for s in gf.own_nodes() if isinstance(s, ast.Assign) and norm(s.targets[0]) == 'size' and const_value(s.value) == 0]
-    rets = [r for r in gf.own_nodes() if isinstance(r, ast.Return) and norm(r.value) == 'size']
+    rets = [r for r in gf.own_nodes() if isinstance(r, ast.Return) and isinstance(r.value, ast.Name)]
+    szv = rets[0].value.id if len(rets) == 1 else None
+    sz = [s for s in gf.own_nodes() if isinstance(s, ast.Assign) and szv and norm(s.targets[0]) == szv and const_value(s.value) == 0]
     oks = len(sz) == 1 and len(rets) == 1 and opens and q.in_body(sz[0], opens[0].body) and q.in_body(rets[0], opens[0].body)
     ctx.check(oks, 'C18.TRUNCOPEN', ctx.key(gf, None, 'size per attempt'),
               'the byte count starts at 0 inside each attempt and is what is returned',
